@@ -554,11 +554,76 @@ def run(chk) -> None:
         chk.note(f"R15b {c.name}: crawler={facts.get('crawl_behaviour')}; exclude_types={facts.get('_exclude_types')}; exclude_parent_types={facts.get('_exclude_parent_types')}.")
     chk.floor("R15b.classes", 5)
 
+    # ---- R15c: children handed to the case changer are never quoted things or comments ----------
+    chk.rule(
+        "R15c",
+        "a segment that a capitalisation rule picks by iterating the children of its crawl target reaches _handle_segment only behind a skip of "
+        "comments, quoted literals and identifiers (the crawl target itself is selected by the crawler's type set, R15b)",
+    )
+    n_c = 0
+    for m, q, f in funcs:
+        cfg = None
+        for c in walk_local(f):
+            if not (isinstance(c, ast.Call) and last_attr(c) == "_handle_segment" and c.args and isinstance(c.args[0], ast.Name)):
+                continue
+            var = c.args[0].id
+            loop = None
+            p_ = getattr(c, "_parent", None)
+            while p_ is not None and p_ is not f:
+                if isinstance(p_, ast.For) and isinstance(p_.target, ast.Name) and p_.target.id == var:
+                    loop = p_
+                    break
+                p_ = getattr(p_, "_parent", None)
+            if loop is None:
+                continue  # the crawl target / a parameter: selected by the crawler
+            n_c += 1
+            cfg = cfg or cfg_of(f)
+            st = cfg.stmt_of(c)
+            excluded = set()
+            for e, pol in cfg.conditions(st):
+                if isinstance(e, ast.Call) and last_attr(e) == "is_type" and isinstance(e.func, ast.Attribute) and isinstance(e.func.value, ast.Name) and e.func.value.id == var and not pol:
+                    excluded |= {a.value for a in e.args if isinstance(a, ast.Constant)}
+                if isinstance(e, ast.Attribute) and isinstance(e.value, ast.Name) and e.value.id == var:
+                    if e.attr == "is_comment" and not pol:
+                        excluded.add("comment")
+                    if e.attr == "is_code" and pol:
+                        excluded |= {"comment", "whitespace", "newline"}
+            missing = [t for t in PROTECTED_CHILD_TYPES if t not in excluded and not (t == "quoted_identifier" and "identifier" in excluded)]
+            chk.require(
+                not missing, "R15c", c,
+                f"{q}: children of the crawl target are handed to the case changer without excluding {missing} "
+                f"(excluded here: {sorted(excluded)}): their text is re-cased although the property keeps quoted things and comments unchanged",
+                detail=f"{q}: child iteration skips comments, quoted literals and identifiers",
+            )
+    chk.count("R15c.child_iteration_sites", n_c)
+    chk.floor("R15c.child_iteration_sites", 1)
+
+
+# types whose text must never be re-cased; "identifier" is the super-type of naked and quoted identifiers
+PROTECTED_CHILD_TYPES = ("comment", "quoted_literal", "quoted_identifier")
 
 # ---------------------------------------------------------------------------
 from ..selftest import Variant  # noqa: E402
 
 VARIANTS = [
+    Variant(
+        "cp05-skip-list-loses-quoted-literal", "src/sqlfluff/rules/capitalisation/CP05.py",
+        "\"symbol\", \"identifier\", \"quoted_literal\", \"comment\"",
+        "\"symbol\", \"identifier\", \"quoted_identifier\", \"comment\"",
+        "R15c", "CP05", "seeded C15-2: teradata DATE FORMAT 'yyyy-mm-dd' is upper-cased",
+    ),
+    Variant(
+        "cp05-skip-list-loses-comment", "src/sqlfluff/rules/capitalisation/CP05.py",
+        "\"symbol\", \"identifier\", \"quoted_literal\", \"comment\"",
+        "\"symbol\", \"identifier\", \"quoted_literal\"",
+        "R15c", "CP05", "the defect repaired by 172388f: comments inside a data type were re-cased",
+    ),
+    Variant(
+        "quiet-cp05-skip-as-two-ifs", "src/sqlfluff/rules/capitalisation/CP05.py",
+        "                if seg.is_type(\n                    \"symbol\", \"identifier\", \"quoted_literal\", \"comment\"\n                ) or not seg.is_type(\"raw\"):\n                    continue\n",
+        "                if seg.is_type(\"symbol\", \"identifier\", \"quoted_literal\"):\n                    continue\n                if seg.is_comment or not seg.is_type(\"raw\"):\n                    continue\n",
+        "QUIET", None, "skip split in two tests, comments recognised by is_comment",
+    ),
     Variant(
         "upper-branch-also-strips", CP01,
         "                fixed_raw = fixed_raw.upper()\n",
